@@ -210,8 +210,9 @@ Definition filter_section (w : world) (p : pod) (nodes : list str) (o : oracle) 
     match avail with
     | None => (w, FErr)
     | Some (subnets, reserve) =>
-        let subnets := match owned_subnets with Some os => match os with [] => subnets | _ => sn_inter subnets os end
-                                              | None => subnets end in
+        (* [None] = the pod holds no IP in its requested ranges; otherwise the node must also route the IPs it keeps
+           (F15, repaired: the pinned commit skipped the restriction when the held IPs had no subnet in common) *)
+        let subnets := match owned_subnets with Some os => sn_inter subnets os | None => subnets end in
         if (reserve || sized) then
           match min_subnet subnets with
           | None => finish w []
@@ -250,7 +251,7 @@ Definition filter_section (w : world) (p : pod) (nodes : list str) (o : oracle) 
                            end in
       match missing with
       | [] => finish w owned_subnets
-      | _ => continue_with missing (Some owned_subnets)
+      | _ => continue_with missing (match owned with [] => None | _ => Some owned_subnets end)
       end
   end.
 
